@@ -2903,6 +2903,9 @@ func (s *ImmuStore) ExportTx(txID uint64, allowPrecommitted bool, skipIntegrityC
 
 		// val
 		// TODO: improve value reading implementation, get rid of _valBs
+		if simhook.Enabled {
+			simhook.BeforeLock("store.valBsMux", s.simTryValBsMux)
+		}
 		s._valBsMux.Lock()
 
 		var valBuf []byte
